@@ -423,4 +423,6 @@ def run(ck, tier):
     from .c01 import r7_register_keeps_tables
     ck.guard(r7_register_keeps_tables, ck, cx, 'R4')
     ck.assume('equality of values through struct is trusted; bit lists round-trip up to zero padding as a consequence of pack_bitstring/unpack_bitstring (trusted base)')
+    from .. import ownership as _own
+    ck.guard(_own.rule_instance_owned, ck, cx, 'R7', _own.DECODERS, 'registering a class on one decoder changes what every other decoder gives back for the bytes of a standard message (the round trip no longer returns the type that was encoded)', 4)
     return cx.idx
